@@ -95,7 +95,8 @@ def _exc_class(e) -> str:
 def run_case(recipe, cfg, chooser, *, real_codegen=False, shadow_exec=False,
              iterations=1,
              stop_after="execute", faults=(), transport_fault=None,
-             max_steps=100000, cross_check=False, keep_partitions=True):
+             max_steps=100000, cross_check=False, keep_partitions=True,
+             tamper=None):
     """Run the real pipeline for *recipe* under the simulator.  Returns a dict:
     outcome, status (per rank), violations, stats, log_digest, partitions ..."""
     n = recipe["nranks"]
@@ -116,6 +117,13 @@ def run_case(recipe, cfg, chooser, *, real_codegen=False, shadow_exec=False,
         def fn(comm):
             rec = record[r]
             part = pt.find_distributed_partition(comm, dags[r])
+            if tamper is not None and tamper["rank"] == r:
+                from . import ptamper
+                part2, desc = ptamper.apply(part, tamper)
+                if part2 is not None:
+                    rec["untampered"] = part
+                    rec["tampered"] = desc
+                    part = part2
             rec["partition"] = part
             rec["stage"] = "partitioned"
             pt.verify_distributed_partition(comm, part)
